@@ -23,12 +23,20 @@ def rand_script(rng, maxlen=12):
     return ",".join(out) if out else "-"
 
 
-def rand_items(rng, big=False):
+# padding sizes: the prefix-size boundaries of one padding chunk (64+1, 8192+2; a three-byte padding prefix would start at
+# 8192+3), WritePadding's batch size (1024 in the pinned code) and its multiples, and sizes far above any batch size
+PAD_BOUND = [0, 1, 2, 3, 63, 64, 65, 66, 1023, 1024, 1025, 1026, 2048, 2049]
+PAD_BIG = [8193, 8194, 8195, 8196, 8197, 16383, 16384, 16385, 16386, 16387, 24579, 32768, 32771, 65536, 100000, 100003]
+
+
+def rand_items(rng, big=False, bigpad=False):
     n = rng.randrange(1, 6)
     items, datas = [], []
     for _ in range(n):
         if rng.random() < 0.35:
-            p = rng.choice([0, 1, 2, 3, 63, 64, 65, 66, 1023, 1024, 1025, 1026, 2048, 2049, rng.randrange(0, 5000)])
+            p = rng.choice(PAD_BOUND + [rng.randrange(0, 5000)])
+            if bigpad:
+                p = rng.choice(PAD_BIG + [rng.randrange(8000, 140000)])
             items.append("p%d" % p)
         else:
             ln = rng.choice(BOUND + [rng.randrange(0, 300)] * 3 + (BIG if big else []))
@@ -129,8 +137,16 @@ def prop(line, impl, model):
             return "packets read through encapsulationPacketConn.ReadFrom are not the chunks of the stream (reader script %s, buffer %d)" % (a[3], n)
     elif op == "pad":
         n = int(a[2])
-        if len(impl) != 2 * n:
-            return "padding of size %d occupies %d bytes" % (n, len(impl) // 2)
+        f = dict(t.split("=", 1) for t in impl.split(" ") if "=" in t)
+        try:
+            ln, ret = int(f["len"]), int(f["ret"])
+        except (KeyError, ValueError):
+            return "WritePadding(%d) failed: %s" % (n, impl[:100])
+        if ln != n or ret != n:
+            return "padding of size %d occupies %d bytes (WritePadding returned %d)" % (n, ln, ret)
+        if f.get("chunks") != "-" or f.get("err") != "eof":
+            return ("padding of size %d is not invisible: reading it back gives chunks=%s err=%s instead of no chunk and a clean EOF"
+                    % (n, f.get("chunks", "?")[:60], f.get("err", "?")))
     elif op == "budget":
         n = int(a[2])
         if impl == "E:toolong":
@@ -165,6 +181,9 @@ def key_of(line, impl, model):
         return "packetconn"
     if a[1] == "decx":
         return "reader-error-passthrough"
+    if a[1] == "pad":
+        f = dict(t.split("=", 1) for t in impl.split(" ") if "=" in t)
+        return "pad" if (f.get("len") != a[2] or f.get("ret") != a[2]) else "pad-visible"
     if a[1] in ("rt", "dec", "alloc", "allocd"):
         sc = a[3]
         zero = any(x.rstrip("E") == "0" for x in sc.split(",")) if sc != "-" else False
@@ -186,6 +205,17 @@ def gen(ctx):
         add("budget %d" % n, "budget")
     for n in list(range(0, 1100 if not thorough else 4200)) + list(range(8185, 8200)) + [16384, 16385, 16386, 100000] + ([1048575, 1048576, 1048580] if thorough else []):
         add("pad %d" % n, "pad")
+    # one WritePadding call far above its batch size and on the boundaries where a padding chunk's prefix would grow to
+    # three bytes (8192+3), under fragmenting readers too; then the same paddings between data chunks
+    for n in PAD_BIG + list(range(8200, 8200 + (8 if not thorough else 200))) + [rng.randrange(8195, 300000) for _ in range(10 if not thorough else 100)]:
+        add("pad %d" % n, "pad-big")
+        add("pad %d %s" % (n, rand_script(rng, 8)), "pad-big")
+    for n in PAD_BIG:
+        add("rt dx41,p%d,dx4243 -" % n, "rt-bigpad")
+        add("rt p%d,dg%d.1,p%d %s" % (n, rng.choice([0, 1, 63, 64, 200]), rng.choice(PAD_BIG), rand_script(rng)), "rt-bigpad")
+    for i in range(60 if not thorough else 600):
+        its, _ = rand_items(rng, bigpad=True)
+        add("rt %s %s" % (its, rand_script(rng)), "rt-bigpad")
     # round trips with random fragmentation
     for i in range(600 if not thorough else 6000):
         its, _ = rand_items(rng, big=(i % 150 == 0))
@@ -251,6 +281,11 @@ def gen_pc(ctx):
     for i in range(150 if ctx.tier == "quick" else 1500):
         its, _ = rand_items(rng, big=(i % 100 == 0))
         add("pc %s %s %d" % (its, rand_script(rng), rng.choice([0, 1, 63, 64, 1200, 1500, 65536])), "pc-random")
+    for n in (8195, 16384, 16387, 100000):
+        add("pc dx41,p%d,dg70.1,dx %s %d" % (n, rand_script(rng), rng.choice([64, 1500])), "pc-bigpad")
+    for i in range(10 if ctx.tier == "quick" else 100):
+        its, _ = rand_items(rng, bigpad=True)
+        add("pc %s %s %d" % (its, rand_script(rng), rng.choice([0, 1, 63, 64, 1200, 1500, 65536])), "pc-bigpad")
     add("pc dg1048576.1 - 10", "pc-toolong")
     return lines, kinds
 
